@@ -493,7 +493,7 @@ func inLoadedPkgs(e *Engine, key string) bool {
 		return false
 	}
 	pn := key[:i]
-	for _, p := range e.Pkgs {
+	for _, p := range e.ModPkgs {
 		if p.Name == pn {
 			return true
 		}
